@@ -38,19 +38,23 @@ func newAnyOf(rr []schema.RuleASTNode, example string, exampleIsString bool) []N
 
 	for _, r := range rr {
 		mock := internal.RuleToASTNode(r)
-		if mock.TokenType != schema.TokenTypeShortcut && mock.Rules.Has("const") {
+		isConst := mock.TokenType != schema.TokenTypeShortcut && mock.Rules.Has("const") &&
+			mock.Rules.GetValue("const").Value == internal.StringTrue
+		if isConst {
 			// The constant of a rule-set is the example next to which the "or" rule is written.
 			mock.Value = example
-			if exampleIsString && !internal.IsString(mock) {
-				// A rule-set of a non-string type is written out as it is: the
-				// string example has to be a JSON string there as well.
-				mock.Value = string(internal.ToJSONString(example))
-			}
 		}
 		node := newNode(mock)
 
 		if p, ok := node.(*Primitive); ok { // fix empty string Example. See JSight {or: [ {type: "integer"} ]}
 			p.Example = nil
+			if isConst {
+				// The only value is the example as it is written, whatever the type of
+				// the rule-set is: a JSON string for a string example, the literal otherwise.
+				enum := makeEmptyEnum()
+				enum.append(newExample(example, exampleIsString).jsonValue())
+				p.Enum = enum
+			}
 			node = p
 		}
 
